@@ -189,3 +189,13 @@ func init() {
 	externs["fmt.Errorf"] = nonNilErr
 	externs["github.com/go-pars/pars.NewError"] = nonNilErr
 }
+
+// (*regexp.Regexp).MatchString: an unknown but fixed relation between the compiled
+// expression and the string (regexp semantics are not modelled).
+func init() {
+	externs["(*regexp.Regexp).MatchString"] = func(c *FnCtx, st *State, call *ast.CallExpr, recv *Val, args []Val) Val {
+		c.declare("reMatch", []string{"Int", "Str"}, "Bool")
+		return vBool(sx("reMatch", recv.S, args[0].S))
+	}
+	pureExterns["(*regexp.Regexp).MatchString"] = true
+}
